@@ -394,8 +394,14 @@ func splitPeriod(mpd *m.MPD, a *asset, cfg *ResponseConfig, wTimes wrapTimes) er
 		return nil
 	}
 	periodDur := 3600 / *cfg.PeriodsPerHour
-	if periodDur*1000%a.SegmentDurMS != 0 {
-		return fmt.Errorf("period duration %ds not a multiple of segment duration %dms", periodDur, a.SegmentDurMS)
+	// Periods must start on segment boundaries of the reference representation.
+	// a.SegmentDurMS is the shortest average over all representations of the asset (also of other MPDs).
+	refSegDurMS := a.SegmentDurMS
+	if a.refRep != nil && len(a.refRep.Segments) > 0 {
+		refSegDurMS = int(math.Round(float64(a.refRep.duration()) * 1000 / float64(a.refRep.MediaTimescale*len(a.refRep.Segments))))
+	}
+	if periodDur*1000%refSegDurMS != 0 {
+		return fmt.Errorf("period duration %ds not a multiple of segment duration %dms", periodDur, refSegDurMS)
 	}
 
 	startPeriodNr := wTimes.startTimeMS / (periodDur * 1000)
